@@ -1510,7 +1510,8 @@ func UniqueInputFieldNamesRule(context *ValidationContext) *ValidationRuleInstan
 						}
 
 					}
-					return visitor.ActionSkip, nil
+					// keep visiting: the value may be a nested input object
+					return visitor.ActionNoChange, nil
 				},
 			},
 		},
